@@ -22,6 +22,7 @@ import (
 	"seehuhn.de/go/pdf/numtree"
 	"seehuhn.de/go/pdf/outline"
 	"seehuhn.de/go/pdf/page"
+	"seehuhn.de/go/pdf/page/navnode"
 	"seehuhn.de/go/pdf/pagelabel"
 	"seehuhn.de/go/pdf/pagetree"
 	"seehuhn.de/go/pdf/walker"
@@ -252,6 +253,22 @@ func (k *wk) probe(w *Wiring, variant int) {
 			}
 			return []string{"ok"}, it.Err
 		})
+	case "navnode":
+		k.call(name, "", 1, &gets, func() ([]string, error) {
+			cur := pdf.CursorAt(pdf.NewExtractor(g), nil)
+			nodes, err := pdf.Decode(cur, pdf.NewReference(1, 0), navnode.Decode)
+			if err != nil {
+				return []string{"err"}, err
+			}
+			proj := []string{}
+			for _, nd := range nodes {
+				if len(proj) > 32 {
+					break
+				}
+				proj = append(proj, strconv.Itoa(int(nd.Dur)))
+			}
+			return proj, nil
+		})
 	case "objwalk":
 		k.call(name, "", 1, &gets, func() ([]string, error) {
 			wk := walker.New(g)
@@ -314,7 +331,7 @@ func (w *Wiring) expected() []string {
 		return w.Out
 	case "parents":
 		return nil // the chain only feeds inherited attributes: termination is what is observed
-	case "pages", "outline", "nametree", "fields", "objwalk":
+	case "pages", "outline", "nametree", "fields", "objwalk", "navnode":
 		if len(w.Out) == 1 && w.Out[0] == "err" {
 			return w.Out
 		}
